@@ -26,6 +26,8 @@ ASSUMPTIONS = [
     "the formula language of the differential run is coq/Model/GraphExpr.v plus two faults: an unknown "
     "function (NameError after the first k precedents) and a plugin function returning 7 or raising",
     "iterative mode, CSE arrays and cycles are not in the model: oracle-only",
+    "ExcelCompiler.recalculate() is not in the model (coq/Model/Fail.v has evaluate / set_value / build only): the "
+    "recalculate stream is oracle-only",
 ]
 
 PLUGIN = '''"""fault-injection plugin for the C09 check"""
